@@ -2,6 +2,8 @@ package props
 
 import (
 	"errors"
+	"fmt"
+	"github.com/jig/lisp/lisperror"
 
 	"github.com/jig/lisp/lib/call"
 	"github.com/jig/lisp/types"
@@ -20,4 +22,9 @@ func installGoBuiltins(e types.EnvType) {
 	call.CallOverrideFN(e, "pan!", func() (types.MalType, error) { panic(ErrPan) })
 	call.CallOverrideFN(e, "sentinel", func() (types.MalType, error) { return ErrBoom, nil })
 	call.CallOverrideFN(e, "pans!", func() (types.MalType, error) { panic("pans") })
+	// a Go builtin returning its own error that wraps the sentinel and a lisp error (what a builtin
+	// does when a lisp callback it ran threw and it passes the failure on)
+	call.CallOverrideFN(e, "boomw!", func() (types.MalType, error) {
+		return nil, fmt.Errorf("%w: callback failed: %w", ErrBoom, lisperror.NewLispError("thrown inside", nil))
+	})
 }
